@@ -40,14 +40,16 @@ VARIABLES bal,      \* Holders -> units
           nonce,    \* Acct -> next nonce
           coins,    \* sequence of [owner, amt, spent]: the confidential pool, by creation order
           held,     \* units held by the contracts (cStore)
+          pay,      \* units held by cPay, a funded contract that pays one unit to the passive account when called
           h,        \* committed height
           spends,   \* history: coin ids spent on the committed chain, in order
           last      \* label of the last step (output only)
-vars == <<bal, tok, nonce, coins, held, h, spends, last>>
+vars == <<bal, tok, nonce, coins, held, pay, h, spends, last>>
 
-St == [bal |-> bal, tok |-> tok, nonce |-> nonce, coins |-> coins, held |-> held, spends |-> spends]
+St == [bal |-> bal, tok |-> tok, nonce |-> nonce, coins |-> coins, held |-> held, pay |-> pay, spends |-> spends]
 
-Supply == Cardinality(Acct) * InitBal
+PayInit == 2
+Supply == Cardinality(Acct) * InitBal + PayInit
 
 TokSupply == Cardinality(Holders) * InitTok
 FwdTarget == CHOOSE p \in Passive : TRUE
@@ -55,7 +57,7 @@ FwdTarget == CHOOSE p \in Passive : TRUE
 Init == /\ bal = [a \in Holders |-> IF a \in Acct THEN InitBal ELSE 0]
         /\ tok = [a \in Holders |-> InitTok]
         /\ nonce = [a \in Acct |-> 0]
-        /\ coins = <<>> /\ held = 0 /\ h = 0 /\ spends = <<>>
+        /\ coins = <<>> /\ held = 0 /\ pay = PayInit /\ h = 0 /\ spends = <<>>
         /\ last = [blk |-> <<>>, ok |-> TRUE]
 
 (* ---- transactions -------------------------------------------------------- *)
@@ -77,6 +79,7 @@ Menu(s) ==
   \cup UNION {{Tx("tok", f, t, a, s.nonce[f]) : t \in Holders \ {f}, a \in Amt} : f \in Acct}
   \cup UNION {{Tx("fwd", f, g, a, s.nonce[f]) : g \in GasClass, a \in Amt} : f \in Acct}
   \cup UNION {{Tx("sst", f, "cSlots", p, s.nonce[f]) : p \in {1, 2}} : f \in Acct}
+  \cup UNION {{Tx("pay", f, g, 0, s.nonce[f]) : g \in GasClass} : f \in Acct}
 
 \* one transaction on state s: [ok, s]
 Apply(s, tx) ==
@@ -99,6 +102,13 @@ Apply(s, tx) ==
                          \* deletion in one storage trie within one block)
          IF tx.n = s.nonce[tx.f]
          THEN [ok |-> TRUE, s |-> [s EXCEPT !.nonce[tx.f] = @ + 1]]
+         ELSE [ok |-> FALSE, s |-> s]
+    [] tx.k = "pay" ->   \* zero-value call of cPay: with ample gas it pays one unit of ITS OWN balance to the
+                         \* passive account; with a gas limit below the inner transfer fee the call fails as a whole
+         IF tx.n = s.nonce[tx.f]
+         THEN [ok |-> TRUE, s |-> IF tx.t = "ample" /\ s.pay >= 1
+                                  THEN [s EXCEPT !.pay = @ - 1, !.bal[FwdTarget] = @ + 1, !.nonce[tx.f] = @ + 1]
+                                  ELSE [s EXCEPT !.nonce[tx.f] = @ + 1]]
          ELSE [ok |-> FALSE, s |-> s]
     [] tx.k = "fwd" ->   \* call cFwd with value: forwarded to the passive account, or failed as a whole
          IF tx.n = s.nonce[tx.f]
@@ -149,8 +159,8 @@ Offer(blk) ==
        /\ last' = [blk |-> blk, ok |-> r.ok]
        /\ IF r.ok
           THEN /\ bal' = r.s.bal /\ tok' = r.s.tok /\ nonce' = r.s.nonce /\ coins' = r.s.coins /\ held' = r.s.held
-               /\ spends' = r.s.spends /\ h' = h + 1
-          ELSE UNCHANGED <<bal, tok, nonce, coins, held, spends, h>>
+               /\ pay' = r.s.pay /\ spends' = r.s.spends /\ h' = h + 1
+          ELSE UNCHANGED <<bal, tok, nonce, coins, held, pay, spends, h>>
 
 Next == \E blk \in Blocks(St) : Offer(blk)
 Spec == Init /\ [][Next]_vars
@@ -162,7 +172,7 @@ RECURSIVE SumBal(_)
 SumBal(S) == IF S = {} THEN 0 ELSE LET a == CHOOSE a \in S : TRUE IN bal[a] + SumBal(S \ {a})
 
 \* C06: value is neither created nor destroyed (fees are epsilon here; the harness accounts them exactly)
-Conservation == SumBal(Holders) + SumCoins(coins) + held = Supply
+Conservation == SumBal(Holders) + SumCoins(coins) + held + pay = Supply
 RECURSIVE SumTok(_)
 SumTok(S) == IF S = {} THEN 0 ELSE LET a == CHOOSE a \in S : TRUE IN tok[a] + SumTok(S \ {a})
 TokenConservation == SumTok(Holders) = TokSupply
@@ -171,12 +181,12 @@ NoNegative == \A a \in Holders : bal[a] >= 0 /\ tok[a] >= 0
 SpentOnce == \A i, j \in DOMAIN spends : i # j => spends[i] # spends[j]
 SpentMarked == \A c \in DOMAIN coins : coins[c].spent <=> \E i \in DOMAIN spends : spends[i] = c
 \* a rejected block changes nothing (block atomicity), an accepted one extends the chain by one
-RejectedIsNoOp == [][~last'.ok => UNCHANGED <<bal, tok, nonce, coins, held, spends, h>>]_vars
+RejectedIsNoOp == [][~last'.ok => UNCHANGED <<bal, tok, nonce, coins, held, pay, spends, h>>]_vars
 NonceCountsExecuted == [][\A a \in Acct : nonce'[a] >= nonce[a]]_vars
 
 (* ---- export ---------------------------------------------------------------- *)
-Proj(b, t, n, c, hd, sp) == [bal |-> b, tok |-> t, nonce |-> n, coins |-> c, held |-> hd, spends |-> sp]
-Edge == PrintT(ToJson([from |-> Proj(bal, tok, nonce, coins, held, spends), act |-> last',
-                       to |-> Proj(bal', tok', nonce', coins', held', spends')]))
-View == <<bal, tok, nonce, coins, held, spends, h>>
+Proj(b, t, n, c, hd, py, sp) == [bal |-> b, tok |-> t, nonce |-> n, coins |-> c, held |-> hd, pay |-> py, spends |-> sp]
+Edge == PrintT(ToJson([from |-> Proj(bal, tok, nonce, coins, held, pay, spends), act |-> last',
+                       to |-> Proj(bal', tok', nonce', coins', held', pay', spends')]))
+View == <<bal, tok, nonce, coins, held, pay, spends, h>>
 =============================================================================
